@@ -27,8 +27,7 @@ def run(ck):
     ck.trusted += ["rustc MIR construction", "core slice ordering and binary_search_by_key"]
 
 
-def r1_lastkey(ck, F):
-    R = "C02-R1"
+def r1_lastkey(ck, F, R="C02-R1"):
     n = 0
     for path in (A("writer_insert"), A("writer_into_inner")):
         b = F.body(path)
@@ -220,8 +219,7 @@ def _eq_then(ck, R, F, b, tag, seek_call, probe, eq_false, none_action):
     ck.ob(R, f"match-action/{tag}", len(same) == 1, f"{tag}: equal => the entry the inner seek returned is returned unchanged", b)
 
 
-def r4_offsets(ck, F):
-    R = "C02-R4"
+def r4_offsets(ck, F, R="C02-R4"):
     b = F.body(A("bw_insert"))
     push = [s for s, c, t in calls(b, "Vec::<T, A>::push") if is_self_field(b.arg_exprs(s)[0], "index_offsets")]
     ck.exact(R, "offset-table pushes in BlockWriter::insert", len(push), 1, F.config)
